@@ -109,6 +109,8 @@ class WriteGrammar:
             t, v = st.targets[0], st.value
             if is_attr(t, self.writer, "string_sanitization_mode") and isinstance(v, ast.Constant) and isinstance(v.value, bool):
                 return ("san", v.value)
+            if is_attr(t, self.writer, "string_sanitization_mode"):
+                return ("san", "<%s>" % src(v)[:40])  # a non-literal mode inside the body: compared (and refused) like any token
             if isinstance(t, ast.Name):
                 # optional chain: V = data._x is None | V = V or data._x is None
                 fields = self.none_chain(v, t.id)
@@ -285,8 +287,8 @@ class ReadGrammar:
                     out.append(("read", tgt.id, self.read_expr(val)))
                     i += 1
                     continue
-                if isinstance(tgt, ast.Attribute) and is_attr(tgt, self.reader, "chunked_reading_mode") and isinstance(val, ast.Constant):
-                    out.append(("mode", val.value))
+                if isinstance(tgt, ast.Attribute) and is_attr(tgt, self.reader, "chunked_reading_mode"):
+                    out.append(("mode", val.value if isinstance(val, ast.Constant) else "<%s>" % src(val)[:40]))
                     i += 1
                     continue
                 if isinstance(tgt, ast.Attribute) and tgt.attr == "_byte_size" and top:
